@@ -297,9 +297,14 @@ func (t *opTable) genOp(r *rng) roOp {
 		return roOp{free: 1, recv: b, desc: fmt.Sprintf("ExportBus(bus#%d)", b), class: "ExportBus"}
 	case k < 5:
 		return roOp{free: 2, desc: "ExportToMarkdown(net)", class: "ExportToMarkdown"}
-	case k < 7:
+	case k < 6:
 		enc := 1 + r.intn(7)
 		return roOp{free: 3, recv: enc, desc: fmt.Sprintf("SaveNetwork(net,enc=%d)", enc), class: "SaveNetwork"}
+	case k < 8:
+		// several encodings at once into writers that FAIL (always / after k bytes / on the nth call)
+		enc := []int{3, 5, 6, 7, 7}[r.intn(5)]
+		mode := r.intn(1 << 12)
+		return roOp{free: 5, recv: enc, method: mode, desc: fmt.Sprintf("SaveNetwork(net,enc=%d,failing writers mode=%d)", enc, mode), class: "SaveNetworkFailingWriters"}
 	case k < 11:
 		b := r.intn(len(t.w.buses))
 		dc := []int{-1, 0, 1, 8, 64, 1024}[r.intn(6)]
@@ -362,6 +367,17 @@ func (t *opTable) run(op roOp) (res string) {
 		var b1, b2, b3 bytes.Buffer
 		err := acmelib.SaveNetwork(t.w.net, acmelib.SaveEncoding(op.recv), &b1, &b2, &b3)
 		return shorten(b1.String()) + "|" + shorten(b2.String()) + "|" + shorten(b3.String()) + "|" + errSig(err)
+	case 5:
+		ws := make([]*failWriter, 3)
+		for i := range ws {
+			ws[i] = newFailWriter(i, (op.method>>(4*uint(i)))&15)
+		}
+		err := acmelib.SaveNetwork(t.w.net, acmelib.SaveEncoding(op.recv), ws[0], ws[1], ws[2])
+		msg := "ok"
+		if err != nil {
+			msg = "ERR(" + err.Error() + ")"
+		}
+		return fmt.Sprintf("%s|%d,%d,%d", msg, ws[0].n, ws[1].n, ws[2].n)
 	case 4:
 		pct, loads, err := acmelib.CalculateBusLoad(t.w.buses[op.recv], op.method)
 		var ls []string
@@ -401,6 +417,39 @@ func (t *opTable) run(op roOp) (res string) {
 		parts = append(parts, render(o, 0, name))
 	}
 	return shorten(strings.Join(parts, "|"))
+}
+
+// failWriter fails always (mode 0..4), after a number of bytes (5..9), on its nth call (10..12),
+// or never (13..15); it counts the bytes it accepted.
+type failWriter struct {
+	who, mode, n, calls int
+}
+
+func newFailWriter(who, mode int) *failWriter { return &failWriter{who: who, mode: mode} }
+
+func (f *failWriter) Write(p []byte) (int, error) {
+	f.calls++
+	fail := fmt.Errorf("writer %d failed", f.who)
+	switch {
+	case f.mode <= 4:
+		return 0, fail
+	case f.mode <= 9:
+		limit := (f.mode - 4) * 40
+		if f.n+len(p) > limit {
+			k := limit - f.n
+			if k < 0 {
+				k = 0
+			}
+			f.n += k
+			return k, fail
+		}
+	case f.mode <= 12:
+		if f.calls >= f.mode-9 {
+			return 0, fail
+		}
+	}
+	f.n += len(p)
+	return len(p), nil
 }
 
 const canonSep = "||canon:"
